@@ -116,9 +116,68 @@ fn judge_shallow(case: &Case, l: &mut Local) {
     }
 }
 
+/// Polygons whose vertices are not exactly representable (on a wavy circle, at an offset), against every
+/// line laid through two of their vertices: such a line only touches the corner of the bounding box of an
+/// edge it meets at a vertex, so the accelerated search has to keep that edge as a candidate in spite of
+/// rounding. The oracle is the property's own definition: the per-edge routine over every edge.
+fn chord_polygon(k: usize, ph: usize) -> Vec<Point2> {
+    (0..=k)
+        .map(|i| {
+            let t = 2.0 * std::f64::consts::PI * (i % k) as f64 / k as f64 + 0.1 * ph as f64;
+            let r = 1.0 + 0.3 * ((3 * (i % k)) as f64 + ph as f64).sin();
+            Point2::new(r * t.cos() + 0.37 * ph as f64, r * t.sin() - 1.1 * ph as f64)
+        })
+        .collect()
+}
+
+fn judge_chords(case: &Case, l: &mut Local) {
+    let mk = || serde_json::to_value(case).unwrap();
+    let pts = chord_polygon(case.size, case.origin_step);
+    let curve = match Curve2::from_points(&pts, 1e-9, false) {
+        Ok(c) => c,
+        Err(_) => return,
+    };
+    let v = curve.points().to_vec();
+    let pl = Polyline::new(v.clone(), None);
+    let ne = v.len() - 1;
+    l.distinct(hash_of(&serde_json::to_string(case).unwrap()));
+    l.bucket("polygon with inexact vertices against lines through two of them");
+    for i in 0..ne {
+        for j in 0..ne {
+            if i == j {
+                continue;
+            }
+            for s in [0.0, -0.37, 0.5, 1.7] {
+                let d: Vector2 = v[j] - v[i];
+                let o = v[i] + d * s;
+                let ray = Ray::new(o, d);
+                l.eval();
+                let fast = match guarded(|| curve.ray_intersections(&ray)) {
+                    Ok(f) => f,
+                    Err(m) => {
+                        l.check("intersection search returns", "panic", false, mk, || format!("vertices {} {} offset {}: {}", i, j, s, m));
+                        continue;
+                    }
+                };
+                let mut naive: Vec<(f64, usize)> = (0..ne).filter_map(|e| ray_intersect_with_edge(&pl, &ray, e).map(|t| (t, e))).collect();
+                naive.sort_by(|a, b| a.0.partial_cmp(&b.0).unwrap());
+                naive.dedup_by(|a, b| (a.0 - b.0).abs() < 1e-8);
+                l.outcome(hash_of(&("chord", fast.len().min(8), naive.len().min(8))));
+                let close = |a: f64, b: f64| (a - b).abs() <= 1e-9 * (1.0 + a.abs());
+                let same = fast.len() == naive.len() && fast.iter().zip(naive.iter()).all(|(a, b)| close(a.0, b.0));
+                l.check("on a line through two vertices the accelerated search equals the per-edge scan", "", same, mk, || format!("line through vertices {} and {} from offset {}: accelerated {:?} per-edge {:?}", i, j, s, fast, naive));
+            }
+        }
+    }
+}
+
 pub fn judge(case: &Case, l: &mut Local) {
     if case.family == "shallow" {
         judge_shallow(case, l);
+        return;
+    }
+    if case.family == "chords" {
+        judge_chords(case, l);
         return;
     }
     let mk = || serde_json::to_value(case).unwrap();
@@ -338,6 +397,12 @@ pub fn cases(tier: Tier) -> Vec<Case> {
             out.push(Case { verts: s.iter().map(|i| lat3[*i].to_vec()).collect(), family: "shallow".into(), size: k, origin_step: 1 });
         }
     }
+    // polygons with inexact vertices against every line through two of their vertices
+    for k in 5..=tier.pick(24, 40) {
+        for ph in 0..tier.pick(3, 5) {
+            out.push(Case { verts: vec![], family: "chords".into(), size: k, origin_step: ph });
+        }
+    }
     for fam in gen::LARGE_FAMILIES {
         for n in gen::LARGE_SIZES {
             out.push(Case { verts: vec![], family: fam.into(), size: n, origin_step: 1 });
@@ -348,9 +413,9 @@ pub fn cases(tier: Tier) -> Vec<Case> {
 
 pub fn run(tier: Tier) -> i32 {
     let mut cx = Ctx::new("C06", tier, "exploration");
-    cx.rule = "every vertex sequence over the 4x4 lattice up to the length bound, and 7 structured large families x 15 sizes (5..5000 edges: every QBVH occupancy and depth), x origins on a grid (inside, outside, behind, on vertices) x 14 directions (axis-parallel, zero components, non-unit, both signs, nearly parallel to edges); oracle = the property's own definition (sort+dedup of the per-edge routine over every edge) plus an independent closed form. distinct = distinct polylines".into();
+    cx.rule = "every vertex sequence over the 4x4 lattice up to the length bound, and 7 structured large families x 15 sizes (5..5000 edges: every QBVH occupancy and depth), x origins on a grid (inside, outside, behind, on vertices) x 14 directions (axis-parallel, zero components, non-unit, both signs, nearly parallel to edges); plus wavy polygons of 5..24 (thorough 40) inexact vertices x 3 (5) placements against every line through two of their vertices from 4 origins; oracle = the property's own definition (sort+dedup of the per-edge routine over every edge) plus an independent closed form. distinct = distinct polylines".into();
     cx.bounds = json!({"lattice": 4, "seq_len": tier.pick(4, 5), "origin_subsampling_longest": tier.pick(3, 5), "directions": DIRS.len(), "large_sizes": gen::LARGE_SIZES});
-    cx.require(&["line exactly through an end vertex", "lattice polyline", "structured large polyline", "line misses", "two crossings", "other crossing count", "axis-parallel line", "large outline with shallow lines"]);
+    cx.require(&["line exactly through an end vertex", "lattice polyline", "structured large polyline", "line misses", "two crossings", "other crossing count", "axis-parallel line", "large outline with shallow lines", "polygon with inexact vertices against lines through two of them"]);
     cx.assume("an unmatched parameter is gray only when the contact is at a vertex whose two neighbours lie on the same side of the line (graze) or at an end vertex; a transversal crossing through a vertex must be reported");
     let cs = cases(tier);
     let l = sweep(&cs, judge);
